@@ -14,6 +14,7 @@ def run(tier):
     rep = Report(PID, tier, 'model_checking')
     bl = hjcommon.QUICK_BOUNDS if tier == 'quick' else hjcommon.THOROUGH_BOUNDS + hjcommon.HUGE_BOUNDS
     hjcommon.explore(rep, ('C02',), bl, ('U',))
+    hjcommon.probe_long_cards(rep, ('U', 'long'))
     rep.coverage['rule'] = ('explicit-state BFS over the live competition object; every alphabet call {add new/existing bib, bar +1/0/-1, '
                             'cleared/failed/passed/retired x every bib} applied to a clone of every reachable state; dedup on the reflected '
                             'internal snapshot + model state; non-trivial = distinct reachable states')
